@@ -2,7 +2,7 @@
 // Kani cells: ALL valid UTF-8 documents of <= 3 bytes (symbolic bytes, checked by std::str::from_utf8 — this covers every 1-, 2- and
 // 3-byte character, newlines, CR) and EVERY usize offset.
 pub fn newlines(s: &str) -> usize { let mut k = 0; for c in s.bytes() { if c == b'\n' { k += 1; } } k }
-// Native enumeration cells (bounded stand-ins, DESIGN §2.3): every document of <= 4 characters over ALPHA (7381 documents; 1-, 2- and
+// Native enumeration cells (bounded stand-ins, DESIGN §2.3): every document of <= 4 characters (<= 5 at the thorough tier: 66 430 documents) over ALPHA (7381 documents; 1-, 2- and
 // 3-byte characters, newline, CR) x lines 0..=5 x character columns 0..=6, run natively against the real function.
 #[cfg(vpv_replay)]
 pub const ALPHA: [char; 9] = ['a', '_', ' ', '\n', '\u{e9}', '1', '.', '(', '\u{4e16}'];
@@ -10,7 +10,7 @@ pub const ALPHA: [char; 9] = ['a', '_', ' ', '\n', '\u{e9}', '1', '.', '(', '\u{
 pub fn docs() -> Vec<String> {
     let mut out = vec![String::new()];
     let mut layer = vec![String::new()];
-    for _ in 0..4 {
+    for _ in 0..(if vpv_thorough() { 5 } else { 4 }) {
         let mut next = Vec::new();
         for d in &layer { for c in ALPHA { let mut e = d.clone(); e.push(c); next.push(e); } }
         out.extend(next.iter().cloned());
